@@ -23,6 +23,7 @@ import JsonV.Gen.Lits
 import JsonV.Spec.Tree
 import JsonV.Model.Unmarshal
 import JsonV.Lemmas.MergeClauses
+import JsonV.Lemmas.MergeDup
 
 namespace JsonV.Props.C08
 open JsonV JsonV.Model JsonV.Lemmas.Dup
@@ -212,9 +213,9 @@ implies that no object anywhere in the input repeats a name.  "Anywhere" is lite
 library, which validates them with the coder namespaces) also checks the values of skipped unknown struct
 members, the surplus elements of a Go array, and values of the wrong JSON kind handed to string/number types,
 so `dupFree` speaks about the whole tree and not only about the part the type gives a destination to. -/
-theorem unm_no_dups (o : UOpts) (T : GoType) (j : JTree) (prior v : GoVal)
+theorem unm_no_dups (o : UOpts) (ho : o.allowDup = false) (T : GoType) (j : JTree) (prior v : GoVal)
     (h : unm o T j prior = .ok v) : j.dupFree = true :=
-  JsonV.Lemmas.Merge.unm_dupFree o T j prior v h
+  JsonV.Lemmas.Merge.unm_dupFree o ho T j prior v h
 
 open JsonV.Spec in
 example : unm {} (.map .any) (.obj [([0x61], .num [0x31])]) .nilMap =
@@ -223,11 +224,11 @@ example : unm {} (.map .any) (.obj [([0x61], .num [0x31])]) .nilMap =
 
 open JsonV.Spec in
 /-- Contrapositive: a repeated name at any depth (also inside a skipped member) makes the call fail. -/
-theorem unm_rejects_dup (o : UOpts) (T : GoType) (j : JTree) (prior : GoVal)
+theorem unm_rejects_dup (o : UOpts) (ho : o.allowDup = false) (T : GoType) (j : JTree) (prior : GoVal)
     (h : j.dupFree = false) : ∃ e, unm o T j prior = .error e := by
   cases hr : unm o T j prior with
   | error e => exact ⟨e, rfl⟩
-  | ok v => rw [unm_no_dups o T j prior v hr] at h; cases h
+  | ok v => rw [unm_no_dups o ho T j prior v hr] at h; cases h
 
 open JsonV.Spec in
 example : (JTree.obj [([0x7a], .obj [([0x61], .null), ([0x61], .null)])]).dupFree = false := by decide
@@ -245,30 +246,31 @@ theorem dupFree_obj_namespace (ms : List (Bytes × JTree)) :
 /-! ### Full statements that remain unproved (validated by harness/c08.go on the implementation)
 
 What `unm_no_dups` above does NOT cover, and why:
-  * the model has no `AllowDuplicateNames` option (`UOpts` only has `arrayAnyLen`; `objFold` and `unmAnyM`
-    always check `seen`, skipped values are always checked with `dupFree`), so `permissive_eq` and `later_wins`
-    cannot even be stated about `Model.unm`; they are stated below about a hypothetical extension `unmAD` that
-    a later version of Model/Unmarshal.lean would have to provide (an `allowDup` flag that drops the three checks);
   * names that differ as strings but resolve to the same destination (case-insensitive struct fields,
     `"0"`/`"-0"` and `"1"`/`"1.0"` map keys, embedded fallbacks, raw `jsontext.Value` targets) are outside the
     model's type universe (exact-name fields, string keys);
   * the step from JSON text to `JTree` (unescaping, UTF-8 validation) belongs to the tokenizer slices.
 The text-level statements quantify over the real `Unmarshal`/`Marshal` as parameters. -/
 
-section FullModel
+/-! ### AllowDuplicateNames over the L3 model (`UOpts.allowDup`, added to Model/Unmarshal.lean by slice C14) -/
+
+section AllowDup
 open JsonV.Spec
-variable (unmAD : UOpts → GoType → JTree → GoVal → Except Err GoVal)
 
-/-- With AllowDuplicateNames nothing else changes: on duplicate-free input the result (value or error) is the default one. -/
-def permissive_eq_full : Prop :=
-  ∀ o T j p, j.dupFree = true → unmAD o T j p = unm o T j p
+/-- With AllowDuplicateNames nothing else changes: on duplicate-free input the result (value or error) is the
+default one — every type, every prior value. -/
+theorem permissive_eq (o : UOpts) (T : GoType) (j : JTree) (p : GoVal) (hd : j.dupFree = true) :
+    unm { o with allowDup := true } T j p = unm { o with allowDup := false } T j p :=
+  JsonV.Lemmas.Merge.unm_congr_dup { o with allowDup := true } { o with allowDup := false } rfl T j p hd
 
-/-- With AllowDuplicateNames a later member arrives as if in a second call: merge for objects, replace otherwise (C14). -/
-def later_wins_full : Prop :=
-  ∀ o T ms k x p, (JTree.obj ms).dupFree = true → x.dupFree = true →
-    unmAD o T (.obj (ms ++ [(k, x)])) p = unmChain o T [.obj ms, .obj [(k, x)]] p
+/-- With AllowDuplicateNames a later member arrives as if in a second call: merge for objects, replace
+otherwise (C14) — for every type and prior value, whether or not the name occurred before. -/
+theorem later_wins (o : UOpts) (ho : o.allowDup = true) (T : GoType) (ms : List (Bytes × JTree)) (k : Bytes)
+    (x : JTree) (p : GoVal) :
+    unm o T (.obj (ms ++ [(k, x)])) p = unmChain o T [.obj ms, .obj [(k, x)]] p :=
+  JsonV.Lemmas.Merge.later_wins_all o ho T ms k x p
 
-end FullModel
+end AllowDup
 
 section Full
 variable {T V G : Type}
